@@ -15,13 +15,13 @@
 (***************************************************************************)
 EXTENDS Core
 
-SEvTypes == <<"SOrd", "SInd", "SMap", "STrig", "SUnr">>      \* registration order = channel order
+SEvTypes == <<"SOrd", "SInd", "SMap", "STrig", "SUnr", "SMTrig">>      \* registration order = channel order
 CEvTypes == <<"COrd", "CMap", "CTrig", "CUnr">>
-SEvSet == {"SOrd", "SInd", "SMap", "STrig", "SUnr"}
+SEvSet == {"SOrd", "SInd", "SMap", "STrig", "SUnr", "SMTrig"}
 CEvSet == {"COrd", "CMap", "CTrig", "CUnr"}
 Unreliable(t) == t \in {"SUnr", "CUnr"}                 \* unreliable channel: loss and reordering
 Independent(t) == t = "SInd"
-Mapped(t) == t \in {"SMap", "STrig", "CMap", "CTrig"}    \* carries an entity reference (when e # None)
+Mapped(t) == t \in {"SMap", "STrig", "SMTrig", "CMap", "CTrig"}    \* carries an entity reference (when e # None)
 
 \* server event  x == [t, id, mode, to, sess, e]   mode \in {"all", "except", "direct"}
 \* message s->c  m == [t, id, stamp, e]            stamp = -1 for independent events
@@ -111,7 +111,10 @@ SrvFrameEv(st, stPreFrame, ran) ==
 ----------------------------------------------------------------------------
 (* client frame: reset on connect, receive after replication, emit, send *)
 
-Resolvable(cs, m) == ~Mapped(m.t) \/ m.e = None \/ m.e \in DOMAIN cs.ents
+\* entity references an event carries: the mapped field / the trigger target, and for the mapped trigger
+\* SMTrig also its payload entity, which the harness always takes to be "e1"
+Refs(m) == (IF Mapped(m.t) /\ m.e # None THEN {m.e} ELSE {}) \cup (IF m.t = "SMTrig" THEN {"e1"} ELSE {})
+Resolvable(cs, m) == Refs(m) \subseteq DOMAIN cs.ents
 
 \* per type: first the queued messages whose tick has arrived (tick order, then arrival), then the new ones
 ReceiveType(acc, t, cs, rx) ==
